@@ -18,6 +18,7 @@ CONSTANTS DEPTH = %d
  ARGS = {%s}
  VIAS = {%s}
  LOGO = %d
+ NPRE = %d
  U <- DummyU
 VIEW ViewSt
 INVARIANT NamesFresh
@@ -33,16 +34,17 @@ def sub_universe(full, sel):
 
 
 def _job(args):
-    hid, h, sel, logo, work = args
+    hid, h, sel, logo, work = args[:5]
+    npre = args[5] if len(args) > 5 else 0
     if "U" not in _G:
         _G["U"] = M.universe()
-    return M.run_history(hid, h, sub_universe(_G["U"], sel), os.path.join(work, "img"), len(sel), logo)
+    return M.run_history(hid, h, sub_universe(_G["U"], sel), os.path.join(work, "img"), len(sel), logo, npre)
 
 
-def explore(work, name, depth, nimg, ops, sim=None, nslides=2, args=("none", "w", "h", "both"), vias=("stream", "path"), logo=0):
+def explore(work, name, depth, nimg, ops, sim=None, nslides=2, args=("none", "w", "h", "both"), vias=("stream", "path"), logo=0, npre=0):
     cfg = os.path.join(work, "MC_Media_%s.cfg" % name)
     q = lambda xs: ",".join('"%s"' % o for o in xs)  # noqa: E731
-    body = (CFG % (depth, nimg, q(ops), q(args), q(vias), logo)).replace("NSLIDES = 2", "NSLIDES = %d" % nslides)
+    body = (CFG % (depth, nimg, q(ops), q(args), q(vias), logo, npre)).replace("NSLIDES = 2", "NSLIDES = %d" % nslides)
     if sim:
         body = body.replace("VIEW ViewSt\n", "")
     with open(cfg, "w") as f:
@@ -80,22 +82,26 @@ def main() -> int:
     # one file path overwritten with one image after the other (two of them BMPs of identical byte length), then added from that path
     SAME = [i + 1 for i, sp in enumerate(_M._SPECS) if sp[0] == "BMP" and sp[2] == (6, 2)] + [1]
     SP = dict(nslides=2, args=("none",), vias=("samepath",))
+    # a deck that already holds ten pictures (image1 .. image10): the next images' sequence numbers are found among two-digit names
+    MANY = dict(nslides=1, args=("none",), vias=("stream",), npre=10)
     if thorough:
         cfgs = [("a", 3, ALLI(4), ALL, None, {}), ("b", 2, ALLI(NGEN), ["addPicture", "reopen"], None, {}),
                 ("gc", 5, PNGS + [2], ["addPicture", "removeLayout", "reopen", "save"], None, GC),
                 ("samepath", 4, SAME, ["addPicture", "reopen"], None, SP),
+                ("many", 3, ALLI(13), ["addPicture", "reopen", "save"], None, MANY),
                 ("sim", 8, ALLI(NGEN), ALL + ["removeLayout"], "num=1500", dict(logo=1))]
     else:
         cfgs = [("a", 2, ALLI(3), ALL, None, {}), ("b", 1, ALLI(NGEN), ["addPicture", "insertPicture"], None, {}),
                 ("c", 3, ALLI(2), ["addPicture", "reopen", "addOle", "addMovie"], None, {}),
                 ("gc", 4, PNGS, ["addPicture", "removeLayout", "reopen"], None, GC),
                 ("samepath", 3, SAME, ["addPicture", "reopen"], None, SP),
+                ("many", 2, ALLI(12), ["addPicture", "reopen"], None, MANY),
                 ("sim", 7, ALLI(NGEN), ALL + ["removeLayout"], "num=150", dict(logo=1))]
     jobs, per = [], {}
     states = trans = 0
     if replay:
         rp = json.load(open(replay))
-        jobs = [(rp["id"], rp["h"], tuple(rp["sel"]), rp.get("logo", 0), work)]
+        jobs = [(rp["id"], rp["h"], tuple(rp["sel"]), rp.get("logo", 0), work, rp.get("npre", 0))]
     else:
         for name, depth, sel, ops, sim, kw in cfgs:
             paths, r = explore(work, name, depth, len(sel), ops, sim, **kw)
@@ -103,7 +109,7 @@ def main() -> int:
             trans += r.generated
             per[name] = {"paths": len(paths), "depth": depth, "images": len(sel), "ops": ops, "tlc_distinct": r.distinct, "simulate": sim,
                          "logo_on_layout": kw.get("logo", 0)}
-            jobs += [("%s:%d" % (name, i), p, tuple(sel), kw.get("logo", 0), work) for i, p in enumerate(paths)]
+            jobs += [("%s:%d" % (name, i), p, tuple(sel), kw.get("logo", 0), work, kw.get("npre", 0)) for i, p in enumerate(paths)]
     traces = E.pmap(_job, jobs, procs=16, chunk=4)
     fullU = M.universe()
 
@@ -138,6 +144,7 @@ def main() -> int:
             for k, v in s.items():
                 tot[k] = tot.get(k, 0) + v
     byid = {t["id"]: (t, j[2], j[3]) for j, t in zip(jobs, traces)}
+    byjob = {j[0]: (j[5] if len(j) > 5 else 0) for j in jobs}
     for v in bad:
         t, nimg, logo = byid[v["id"]]
         U = sub_universe(fullU, nimg)
@@ -154,7 +161,7 @@ def main() -> int:
                             (m["ext"], m["ctype"]) != ({"PNG": "png", "JPEG": "jpg", "GIF": "gif", "BMP": "bmp", "TIFF": "tiff", "EMF": "emf", "WMF": "wmf"}.get(U[m["img"] - 1]["fmt"]),
                                                        {"PNG": "image/png", "JPEG": "image/jpeg", "GIF": "image/gif", "BMP": "image/bmp", "TIFF": "image/tiff", "EMF": "image/x-emf", "WMF": "image/x-wmf"}.get(U[m["img"] - 1]["fmt"]))})
             site = ("stored:" + ",".join(wrong)) if "ExtAndTypeOfActualFormat" in b["failing"] and wrong else (a["op"] + cls)
-            rep.reject("%s@%s" % (clause, site), {"module": "Media", "id": t["id"], "h": t["h"], "sel": list(nimg), "logo": logo, "failing": b,
+            rep.reject("%s@%s" % (clause, site), {"module": "Media", "id": t["id"], "h": t["h"], "sel": list(nimg), "logo": logo, "npre": byjob[t["id"]], "failing": b,
                                                   "observed": t_obs, "errs": [s.get("err") for s in t["steps"]]},
                        "history %s" % json.dumps([{k: x[k] for k in ("op", "slide", "img", "args", "via")} for x in t["h"]])[:500])
     ops = {}
